@@ -7,6 +7,7 @@ validating a **freshly built** schema that carries exactly the model's
 assignment raises, with the same set of messages.  Every documented way of
 (re)assigning a resolver is a route (docs/usage/defining-resolvers.rst).
 """
+import functools
 import hashlib
 import random
 
@@ -55,8 +56,56 @@ def r_named(root, ctx, info, a_int=None, a_string=None, a_boolean=None,
     return None
 
 
+def r_kw_short(root, ctx, **kw):
+    return None
+
+
+def r_kw_only(**kw):
+    return None
+
+
+def r_kwonly_req(root, ctx, info, *, extra2, **kw):
+    return None
+
+
+def r_kwonly_ok(root, ctx, info, *, a_int=None, **kw):
+    return None
+
+
+class _Methods:
+    def m_ok(self, root, ctx, info, **kw):
+        return None
+
+    def m_short(self, root, **kw):
+        return None
+
+    def __call__(self, root, ctx, info, **kw):
+        return None
+
+
+def _four(prefix, root, ctx, info, **kw):
+    return None
+
+
+_M = _Methods()
+m_ok = _M.m_ok
+m_short = _M.m_short
+obj_ok = _M
+obj_ok.__name__ = "obj_ok"
+partial_ok = functools.partial(_four, 1)
+partial_ok.__name__ = "partial_ok"
+partial_short = functools.partial(_four, 1, 2, 3)
+partial_short.__name__ = "partial_short"
+
 CALLABLES = (r_kwargs, r_star, r_named, r_noargs, r_two, r_extra, r_posonly,
-             r_nodefault)
+             r_nodefault, r_kw_short, r_kw_only, r_kwonly_req, r_kwonly_ok,
+             m_ok, m_short, obj_ok, partial_ok, partial_short)
+# Labels, independent of the validator: compatible with EVERY field / with NO
+# field of any generated schema (three positional parameters is a rule the
+# validator documents; no generated argument is called extra / extra2).
+ALWAYS_VALID = (r_kwargs, r_star, r_kwonly_ok, m_ok, obj_ok, partial_ok)
+ALWAYS_INVALID = (r_two, r_extra, r_kw_short, r_kw_only, r_kwonly_req,
+                  m_short, partial_short)
 
 _SHARED = {}
 
@@ -103,6 +152,11 @@ def _fresh(sdl, model):
     """A freshly built schema carrying exactly the model's assignment,
     applied through the registration API in a canonical order."""
     s = build_schema(sdl)
+    for doc in model.get("exts", ()):
+        # before any assignment: extend_schema validates its result, and the
+        # reference must report the whole assignment at once
+        from py_gql.sdl import extend_schema
+        s = extend_schema(s, doc)
     for (t, f), fn in sorted(model["fields"].items()):
         if fn is not None:
             s.register_resolver(t, f, fn, allow_override=True)
@@ -117,6 +171,28 @@ def _fresh(sdl, model):
         # schema never validated before is given the attribute directly
         s.default_resolver = model["global"]
     return s
+
+
+def _fresh_verdict(sdl, model, via="validate"):
+    try:
+        return _verdict(_fresh(sdl, model), via)
+    except SchemaValidationError as err:
+        # extend_schema validates its result
+        return ("invalid", tuple(sorted(str(e) for e in err.errors)))
+
+
+def _label(model):
+    """Verdict known without consulting the validator, or None."""
+    assigned = [fn for fn in list(model["fields"].values())
+                + list(model["types"].values())
+                + list(model["subs"].values()) + [model["global"]]
+                if fn is not None]
+    bad = [fn for fn in model["fields"].values() if fn in ALWAYS_INVALID]
+    if bad:
+        return "invalid", bad[0].__name__
+    if all(fn in ALWAYS_VALID for fn in assigned):
+        return "valid", None
+    return None, None
 
 
 MUTANTS = (
@@ -258,7 +334,8 @@ def run_machine(draws, state, tier):
                 for f in t.fields:
                     targets.append((tname, f.name))
         objtypes = sorted({t for t, _ in targets})
-        model = {"fields": {}, "types": {}, "subs": {}, "global": None}
+        model = {"fields": {}, "types": {}, "subs": {}, "global": None,
+                 "exts": []}
         n_ops = 2 + st.below(10 if tier == "quick" else 24, "n_ops")
         by_arg = {}
         for tname, fname in targets:
@@ -266,9 +343,82 @@ def run_machine(draws, state, tier):
                 by_arg.setdefault(a.name, []).append((tname, fname))
         shared_args = sorted(a for a, fs in by_arg.items() if len(fs) >= 2)
         for step in range(n_ops):
-            op = st.weighted((5, 3, 1, 2, 4 if shared_args else 0, 1), "op")
+            op = st.weighted((5, 3, 1, 2, 4 if shared_args else 0, 1, 2, 1,
+                              1), "op")
             # 0 reassign, 1 check(validate), 2 check(query), 3 shuffled
-            # rebuild, 4 one callable registered on several fields
+            # rebuild, 4 one callable registered on several fields, 5 derived
+            # verdict, 6 read-only use, 7 rebase on an extension, 8 refused
+            # registration
+            if op == 6:
+                # activity that reads the schema and must leave the next
+                # verdict alone
+                use = ("diff-old", "diff-new", "print", "validate_schema-fn",
+                       "clone", "introspect")[st.below(6, "use")]
+                seq.append(("use", use))
+                try:
+                    if use.startswith("diff"):
+                        from py_gql.schema.differ import diff_schema
+                        other = build_schema(sdl)
+                        pair = (live, other) if use == "diff-old" else (
+                            other, live)
+                        list(diff_schema(*pair))
+                    elif use == "print":
+                        live.to_string()
+                    elif use == "validate_schema-fn":
+                        from py_gql.schema.validation import validate_schema
+                        validate_schema(live)
+                    elif use == "clone":
+                        live.clone()
+                    else:
+                        from py_gql.utilities import introspection_query
+                        introspection_query()
+                        sorted(live.types)
+                        [live.get_possible_types(t) for t in
+                         live.types.values()
+                         if hasattr(t, "types") or
+                         type(t).__name__ == "InterfaceType"]
+                except SchemaError:
+                    pass  # the live assignment may well be invalid
+                except Exception as err:  # noqa: B902
+                    V.append(Violation(
+                        P, "stale_verdict", ("use:" + use, "raised"),
+                        "step %d: %s of the live schema raised %r" % (
+                            step, use, err)))
+                    break
+                res.count("use:" + use)
+                continue
+            if op == 7:
+                from py_gql.sdl import extend_schema
+                doc = "extend type %s { ext_c13_r%d: Int }" % (
+                    live.query_type.name, step)
+                seq.append(("rebase-extend", step))
+                try:
+                    live = extend_schema(live, doc)
+                except SchemaValidationError:
+                    seq[-1] = ("rebase-refused", step)
+                else:
+                    model["exts"].append(doc)
+                res.count("rebase")
+                continue
+            if op == 8:
+                # a registration refused for want of allow_override changes
+                # nothing
+                have = sorted(k for k, v in model["fields"].items()
+                              if v is not None)
+                if not have:
+                    continue
+                t, f = have[st.below(len(have), "refused_target")]
+                fn = CALLABLES[st.below(len(CALLABLES), "callable")]
+                if fn is model["fields"][(t, f)]:
+                    continue
+                seq.append(("refused-registration", fn.__name__, t, f))
+                try:
+                    live.register_resolver(t, f, fn)
+                except ValueError:
+                    res.count("probe:refused_registration")
+                else:
+                    model["fields"][(t, f)] = fn  # accepted after all
+                continue
             if op == 4:
                 aname = shared_args[st.below(len(shared_args), "shared_arg")]
                 fn = shared_resolver(aname, bool(st.below(2, "shared_dflt")))
@@ -345,6 +495,12 @@ def run_machine(draws, state, tier):
                 except SchemaValidationError as err:
                     got = ("invalid",
                            tuple(sorted(str(e) for e in err.errors)))
+                except Exception as err:  # noqa: B902
+                    V.append(Violation(
+                        P, "stale_verdict", ("derived-" + how, "raised"),
+                        "step %d: %s of the live schema raised %r" % (
+                            step, how, err)))
+                    break
                 try:
                     fresh = _fresh(sdl, model)
                     if how == "extend":
@@ -370,8 +526,22 @@ def run_machine(draws, state, tier):
                 via = "validate" if op == 1 else "query"
                 seq.append(("check", via))
                 got = _verdict(live, via)
-                want = _verdict(_fresh(sdl, model))
+                want = _fresh_verdict(sdl, model)
                 res.count("checks")
+                lab, lab_fn = _label(model)
+                if lab is not None and want[0] != lab:
+                    # live and fresh agree or not, the reference itself
+                    # contradicts a verdict known by construction
+                    V.append(Violation(
+                        P, "labelled_verdict",
+                        ("accepted-invalid" if lab == "invalid"
+                         else "rejected-valid",),
+                        "step %d: assignment labelled %s%s, a fresh schema "
+                        "carrying it is %s %r" % (
+                            step, lab,
+                            " (%s on a field)" % lab_fn if lab_fn else "",
+                            want[0], want[1][:2])))
+                    break
                 if want[0] == "invalid":
                     res.count("probe:checks_on_invalid_assignment")
                 if got[0] != want[0]:
@@ -381,7 +551,11 @@ def run_machine(draws, state, tier):
                     # the previous check
                     since = []
                     for s in reversed(seq[:-1]):
-                        if s[0] == "check":
+                        if s[0] in ("check", "rebase-extend") or (
+                                s[0] == "use" and s[1].startswith("diff")):
+                            # diff_schema validates both of its arguments
+                            # (extend_schema validates its result: the new
+                            # live schema starts from a computed verdict)
                             break
                         if s[0] in ROUTES:
                             since.append(s[0])
@@ -410,8 +584,8 @@ def run_machine(draws, state, tier):
                 continue
             seq.append(("rebuild-shuffled",))
             rnd = random.Random(st.below(1 << 16, "perm"))
-            a = _verdict(_fresh(sdl, model))
-            b = _verdict(_fresh(_shuffled_sdl(entry.parts, rnd), model))
+            a = _fresh_verdict(sdl, model)
+            b = _fresh_verdict(_shuffled_sdl(entry.parts, rnd), model)
             res.count("shuffled_rebuilds")
             if a[0] != b[0]:
                 V.append(Violation(P, "order_dependent_verdict", ("verdict",),
